@@ -101,6 +101,75 @@ def restore(snapshot, root):
         os.chmod(p, mode)
 
 
+class Sandbox:
+    """A directory whose current image is known (the last snapshot taken of it), so that moving it
+    to another snapshot only touches what differs.  Any doubt -> invalidate() -> full restore."""
+
+    def __init__(self, root):
+        self.root = os.fsencode(root)
+        self.image = None
+
+    def invalidate(self):
+        self.image = None
+
+    def observed(self, snapshot):
+        self.image = snapshot
+
+    def sync(self, target):
+        if self.image is None:
+            restore(target, self.root)
+        elif self.image is not target and self.image != target:
+            try:
+                self._apply(self.image, target)
+            except OSError:
+                restore(target, self.root)
+        self.image = target
+
+    def _apply(self, cur, tgt):
+        b = {e[0]: e for e in cur}
+        a = {e[0]: e for e in tgt}
+        root = self.root
+        gone = sorted((r for r in b if r not in a or a[r][1] != b[r][1]), reverse=True)  # children first
+        for r in gone:
+            p = os.path.join(root, r)
+            if b[r][1] == "d":
+                os.rmdir(p)
+            else:
+                os.unlink(p)
+        dirmodes = []
+        for r in sorted(a):
+            e = a[r]
+            old = b.get(r)
+            if old == e:
+                continue
+            p = os.path.join(root, r)
+            fresh = old is None or old[1] != e[1]
+            if e[1] == "d":
+                if fresh:
+                    os.mkdir(p, 0o700)
+                dirmodes.append((p, e[2]))
+            elif e[1] == "l":
+                if not fresh:
+                    os.unlink(p)
+                os.symlink(e[3], p)
+            elif e[1] == "f":
+                if not fresh and old[3] == e[3]:
+                    os.chmod(p, e[2])
+                    continue
+                if not fresh:
+                    os.unlink(p)  # never write through: a fresh inode, like restore()
+                fd = os.open(p, os.O_WRONLY | os.O_CREAT | os.O_EXCL, 0o600)
+                try:
+                    os.write(fd, e[3])
+                finally:
+                    os.close(fd)
+                os.chmod(p, e[2])
+            else:
+                raise OSError("cannot create entry of kind %r" % (e[1],))
+        for p, mode in reversed(dirmodes):
+            os.chmod(p, mode)
+
+
 def force_rmtree(root):
     """rmtree that also works for an unprivileged owner when directories lack permissions."""
     def onerror(fn, path, exc):
